@@ -4197,6 +4197,11 @@ class AbsInt:
             summ = self.summaries.get(f're.{name}')
             if summ is not None and base[2] in (0, None):
                 return summ(self, [base[1]] + list(args), dict(kwargs), node)
+            if name in ('fullmatch', 'match', 'search') and len(args) == 1 and isinstance(args[0], str) and isinstance(base[1], str) \
+                    and base[2] in (0, None) and not kwargs:
+                # a pattern applied to a constant (a table computed at import): whether it matches is a constant
+                import re as _re
+                return True if getattr(_re, name)(base[1], args[0]) else None
             return Opaque(f'compiled pattern .{name}')
         if isinstance(base, AList) and base.kind == 'deque':
             log_event('deque', name, base, node)
